@@ -475,13 +475,22 @@ func RegisterCore(p *Program) {
 		}
 		return nil
 	}
+	I["math.Round"] = func(in *Interp, fr *frame, a []Value) Value {
+		switch x := a[0].(type) {
+		case float64:
+			return math.Round(x)
+		case *Term:
+			return in.ts.FPRound(x)
+		}
+		panic(engineErr("math.Round on %T", a[0]))
+	}
 	I["math.Float64bits"] = func(in *Interp, fr *frame, a []Value) Value {
 		return in.ts.Const(64, math.Float64bits(a[0].(float64)))
 	}
 	I["math.Float64frombits"] = func(in *Interp, fr *frame, a []Value) Value {
 		t := a[0].(*Term)
 		if !t.IsConst() {
-			panic(engineErr("symbolic Float64frombits"))
+			return in.ts.FPFromBits(t)
 		}
 		return math.Float64frombits(t.Val)
 	}
